@@ -60,6 +60,12 @@ def call(u, op, t, k=0, t1=None, step=1):
             elif op == "offset":
                 rec["out"] = proj(iv.offset(t, k))
             elif op in ("range", "wrange"):
+                first = iv.range(t, t1, step)
+                # the caller edits the list it was given and asks again: what is observed is the SECOND enumeration
+                if isinstance(first, list):
+                    first.append(t1)
+                    if len(first) > 1:
+                        first.pop(0)
                 rec["outs"] = [proj(x) for x in iv.range(t, t1, step)]
     except Exception as ex:          # (includes guard.CallTimeout: the call did not return)
         rec["err"] = type(ex).__name__
@@ -90,6 +96,13 @@ def records_for(t, units, rng, ops):
             elif op == "offset":
                 out.append(call(u, op, boundary(u, t), k=rng.choice([0, 1, 1, 2, 3, 7, 12, 28, 31, 59, 100, 365, 400])))
             elif op == "range":
+                if u in ("second", "minute", "hour") and rng.random() < 0.02:
+                    # a long run of consecutive boundaries (more than a thousand) across a daylight-saving change of a C18 zone
+                    per = {"second": dt.timedelta(seconds=1), "minute": dt.timedelta(minutes=1), "hour": dt.timedelta(hours=1)}[u]
+                    change = rng.choice([dt.datetime(2024, 3, 10, 2), dt.datetime(2024, 11, 3, 1), dt.datetime(2024, 10, 6, 2),
+                                         dt.datetime(2024, 4, 7, 2), dt.datetime(2024, 9, 29, 2, 45), dt.datetime(2024, 4, 7, 3, 45)])
+                    t0 = change - per * rng.randint(100, 900)
+                    out.append(call(u, op, t0, t1=t0 + per * rng.choice([1030, 1100, 1500]), step=1))
                 span = RANGE_SPAN[u] * rng.choice([0.02, 0.3, 1])
                 step = 1 if u == "week" else rng.choice([1, 1, 2, 3, 5, 6, 10, 12])
                 t1 = t + span
